@@ -177,9 +177,54 @@ func permCases() []*ProgCase {
 	return out
 }
 
+// sharedNodeCases: one variable (hence one type node) used for two fields of
+// the first element; the second element agrees on the first field only. The
+// programs are ill-typed; if the checker lets one through, the walker sees a
+// value of the wrong type.
+func sharedNodeCases() []*ProgCase {
+	var out []*ProgCase
+	env := bridge.NewEnv()
+	env.Put("xs", ref.VList(ref.TNum, ref.VNum(1), ref.VNum(2)))
+	env.Put("m", ref.VMap(ref.TStr, ref.TNum, ref.KV{K: ref.VStr("k"), V: ref.VNum(1)}))
+	env.Put("o", ref.VObj(ref.TObj(ref.F("x", ref.TNum)), ref.VNum(1)))
+	env.Put("flag", ref.VBool(false))
+	env.Put("i", ref.VNum(1))
+	n1, s1 := ref.Num("1", 1), ref.Str("s")
+	type sh struct {
+		v          string
+		same, diff *ref.E
+		access     func(e *ref.E) *ref.E
+	}
+	shapes := []sh{
+		{"xs", ref.List(n1), ref.List(s1), func(e *ref.E) *ref.E { return ref.Subscript(e, ref.Num("0", 0)) }},
+		{"m", ref.Map([]*ref.E{ref.Str("k")}, []*ref.E{n1}), ref.Map([]*ref.E{ref.Str("k")}, []*ref.E{s1}), func(e *ref.E) *ref.E { return ref.Subscript(e, ref.Str("k")) }},
+		{"o", ref.Obj([]string{"x"}, []*ref.E{n1}), ref.Obj([]string{"x"}, []*ref.E{s1}), func(e *ref.E) *ref.E { return ref.Member(e, "x") }},
+	}
+	for si, s := range shapes {
+		first := func() *ref.E { return ref.Obj([]string{"a", "b"}, []*ref.E{ref.Ident(s.v), ref.Ident(s.v)}) }
+		second := func() *ref.E { return ref.Obj([]string{"a", "b"}, []*ref.E{s.same.Clone(), s.diff.Clone()}) }
+		secondRev := func() *ref.E { return ref.Obj([]string{"b", "a"}, []*ref.E{s.diff.Clone(), s.same.Clone()}) }
+		progs := []*ref.E{
+			s.access(ref.Member(ref.Subscript(ref.List(first(), second()), ref.Ident("i")), "b")),
+			s.access(ref.Member(ref.Subscript(ref.List(first(), secondRev()), ref.Ident("i")), "b")),
+			s.access(ref.Member(ref.Call("if", ref.Ident("flag"), first(), second()), "b")),
+			s.access(ref.Member(ref.Subscript(ref.Map([]*ref.E{ref.Str("p"), ref.Str("q")}, []*ref.E{first(), second()}), ref.Str("q")), "b")),
+			s.access(ref.Member(ref.Call("get", ref.List(first()), ref.Num("7", 7), second()), "b")),
+			s.access(ref.Subscript(ref.Subscript(ref.List(ref.List(ref.Ident(s.v), ref.Ident(s.v)), ref.List(s.same.Clone(), s.diff.Clone())), ref.Ident("i")), ref.Ident("i"))),
+			s.access(ref.Subscript(ref.Call("fst", ref.List(ref.Ident(s.v), ref.Ident(s.v)), ref.Num("0", 0)), ref.Ident("i"))),
+		}
+		for pi, e := range progs {
+			out = append(out, &ProgCase{ID: fmt.Sprintf("shared-node/%d/%d", si, pi), Src: ref.Render(e), E: e, Env: env, User: ref.UserFuns()})
+		}
+	}
+	return out
+}
+
 func init() {
 	run.Register(&run.Spec{
 		ID: "C01", Run: func(c *run.Ctx) {
+			both01 := func(c *run.Ctx, o *ProgObs) { oracleC01(c, o); oracleC05(c, o) }
+			fixedCases(c, sharedNodeCases(), both01)
 			user := ref.UserFuns()
 			opt := ref.GenOpt{MaxDepth: 5, PFail: 0.02, PSugar: 0.6, PBoundary: 0.1, PGroup: 0.03, UserFuns: true}
 			stream(c, "mixed", c.Pick(5000, 120000), opt, user, 0, oracleC01)
